@@ -40,3 +40,11 @@ Proof. cbv; auto. Qed.
 Lemma tie_replyEvent : f_sig_replyEvent_text =
   "func (o *signalHandler) replyEvent(user *signalUser, signal uint32, value []byte) error { hdr := o.newHeader(net.Event, signal, user.messageID) msg := net.NewMessage(hdr, value) o.trace(&msg) return user.context.Send(&msg) }".
 Proof. reflexivity. Qed.
+
+(* client.Subscribe (SignalsFwd.v): the cancel function does nothing but close(abort) (FCancel); the
+   forwarder, started with the id MakeHandler returned (FSub), receives from the queue (FTake; on a
+   closed queue close(events): FQClosed), sends on events (until FRead), and on abort calls
+   RemoveHandler(id) and closes events (FAbort) — the only RemoveHandler of the function *)
+Lemma tie_client_Subscribe : f_client_Subscribe =
+  "close abort ; go ; recv queue ; close events ; send events ; recv abort ; c.endpoint.RemoveHandler ; close events ; c.endpoint.MakeHandler".
+Proof. reflexivity. Qed.
